@@ -7,7 +7,7 @@ PATCH=$(realpath "$1"); BUDGET=$2; shift 2
 S=/tmp/repo-try-$$
 git -C /repo worktree add --detach $S HEAD -q || exit 3
 trap 'git -C /repo worktree remove --force '$S'; git -C /repo worktree prune' EXIT
-git -C $S apply "$PATCH" || { echo "patch does not apply"; exit 3; }
+git -C $S apply "$PATCH" 2>/dev/null || git -C $S apply --3way "$PATCH" 2>/dev/null || { echo "patch does not apply"; exit 3; }
 cd /verif
 for id in "$@"; do
   out=$(VERIF_REPO=$S VERIF_BUDGET_S=$BUDGET timeout 1800 ./run check "$id" --tier quick 2>&1)
